@@ -7,8 +7,8 @@ from .lib import coq_mismatches, clist
 LEVEL = "proof"
 META = {
     "category": "proof",
-    "text": "Coq theorems over an executable model of syntax/parse.go (recursive descent with the real precedence table, explicit fuel) and of the parts of syntax/scan.go the property names (number delimiting/decoding in all radices and sizes, INDENT/OUTDENT/NEWLINE synthesis): every well-parenthesised expression tree rendered to tokens parses back to exactly that tree with every position field (all operator pairs, all nestings), each node's Span start is its first token, integer literals decode to their positional value for every radix and length, the indentation stack re-nests every consistently indented block structure and rejects inconsistent dedents. The hand-written model is tied to /repo on every run: a Go generator of syntax trees (depth 6, all expression and statement forms, random layout) is rendered to text, the real FileOptions.Parse/ParseExpr tree is compared with the generated tree and positions, the real token stream (verif hook) is parsed by the Coq model (vm_compute) and must give the real tree, and Print.v must render the generated tree to the real token kinds; literal sweeps, layout streams and one-token near-misses are compared the same way.",
-    "note": "Trusted: Coq kernel + vm_compute; the Go harness (generator, renderer, its independent literal/unquote oracles); strconv.ParseFloat (cross-checked against CPython float()); unicode tables. The statement-level parser is modelled and tied by correspondence; its parse/print theorem is partial (see Properties.v). String-escape decoding is checked against an independent Go oracle only.",
+    "text": "Coq theorems over an executable model of syntax/parse.go (recursive descent with the real precedence table, explicit fuel) and of the parts of syntax/scan.go the property names (number delimiting/decoding in all radices and sizes, INDENT/OUTDENT/NEWLINE synthesis). Proved for all inputs: every well-parenthesised expression tree rendered to tokens parses back to exactly that tree with every position field, at every precedence level (all operator pairs, all nestings, comparisons non-associative, unary, conditional, lambda, calls/args, slices, displays, comprehensions); the same for every concrete statement tree and file (simple-statement lines with ';', inline and indented suites, if/elif/else, for, while, def, load); conversely every token list the expression parser accepts is the rendering of the well-parenthesised tree it returns (so near-miss texts are rejected or are themselves texts of the grammar with that meaning); each node's Span start is its first token; integer literals decode to their positional value for every radix and length; the indentation stack re-nests every consistently indented block structure with blank/comment/continuation lines anywhere, never underflows, and rejects inconsistent dedents. The hand-written model is tied to /repo on every run: a Go generator of syntax trees (depth 6, all expression and statement forms, random layout) is rendered to text, the real FileOptions.Parse/ParseExpr tree and Span starts are compared with the generated tree and the renderer's positions, the real token stream (verif hook) is parsed by the Coq model (vm_compute) and must give the real tree, Print.v must render the generated tree to the real token kinds; literal sweeps, layout streams, one-token near-misses and texts with one required parenthesis dropped are compared the same way.",
+    "note": "Trusted: Coq kernel + vm_compute; the Go harness (generator, renderer, its independent literal/unquote oracles); strconv.ParseFloat (cross-checked against CPython float()); unicode tables. Soundness (accepted => rendering of a well-formed tree) is proved for expressions; for statements it is checked by correspondence only. String-escape decoding is checked against an independent Go oracle only; error positions are checked to lie inside the text but are not modelled.",
     "technique": "Coq proof over executable model + differential correspondence (vm_compute) + independent tree/renderer oracle",
 }
 HEADER = ("From Coq Require Import ZArith List String Bool.\n"
@@ -57,6 +57,24 @@ def line_term(l):
     return "(mkline %s %s %d%%nat %s tt)" % (ws, "true" if l["blank"] else "false", l["depth"], "true" if l["cont"] else "false")
 
 
+def par_mismatches(ctx, terms, workers, shard):
+    """coq_mismatches over `workers` interleaved slices of the cases, in parallel coqc runs."""
+    fns = ["model_ok", "spec_ok", "sound_ok"]
+    if workers <= 1 or len(terms) < 2 * shard:
+        return coq_mismatches(ctx, "c14_cases", HEADER, terms, fns, shard=shard, timeout=1200)
+    import concurrent.futures as cf
+    per = (len(terms) + workers - 1) // workers
+    parts = [(w, w * per, terms[w * per:(w + 1) * per]) for w in range(workers)]
+    out = [[], [], []]
+    with cf.ThreadPoolExecutor(max_workers=workers) as ex:
+        futs = [ex.submit(coq_mismatches, ctx, "c14_cases_w%d" % w, HEADER, part, fns, shard, 1200) for (w, off, part) in parts if part]
+        for (w, off, part), fu in zip([p for p in parts if p[2]], futs):
+            res = fu.result()
+            for k in range(3):
+                out[k].extend(off + i for i in res[k])
+    return out
+
+
 def run(ctx):
     ctx.proofs()
     ok, log = ctx.coq_make(["C14/Check.vo"])
@@ -67,7 +85,7 @@ def run(ctx):
     sizes = {"expr": 700 if q else 40000, "file": 500 if q else 30000,
              "lit": 100 if q else 2000, "layout": 400 if q else 6000, "near": 25 if q else 250,
              "unparen": 400 if q else 6000}
-    coq_cap = {"expr": 30 if q else 2500, "file": 25 if q else 2000, "near": 70 if q else 4000,
+    coq_cap = {"expr": 30 if q else 2500, "file": 25 if q else 2000, "near": 110 if q else 4000,
                "layout": 50 if q else 3000, "int": 120 if q else 5000, "float": 50 if q else 2000,
                "unparen": 90 if q else 4000}
     tokcap = 40 if q else 160
@@ -110,7 +128,9 @@ def run(ctx):
     k = 0
     ncap = {"near": coq_cap["near"], "unparen": coq_cap["unparen"]}
     nk = {"near": 0, "unparen": 0}
-    for c in obs["near"] + obs["unparen"]:
+    # accepted mutants first: that is where a widened parser shows (model rejects / tree ill-formed)
+    nearall = sorted(obs["near"] + obs["unparen"], key=lambda c: 0 if c.get("parse") == "ok" else 1)
+    for c in nearall:
         fam = "unparen" if c["mut"].startswith("unparen") else "near"
         if not c["ok"]:
             go_bad += 1
@@ -183,7 +203,7 @@ def run(ctx):
         add("(CLayout %s %s %s)" % (clist([line_term(l) for l in c["lines"]]), "true" if c["final_newline"] else "false", o), c)
 
     ctx.log("evaluating %d cases in Coq" % len(terms))
-    bad_model, bad_spec, bad_sound = coq_mismatches(ctx, "c14_cases", HEADER, terms, ["model_ok", "spec_ok", "sound_ok"], shard=6000 if q else 1500, timeout=1200)
+    bad_model, bad_spec, bad_sound = par_mismatches(ctx, terms, 1 if q else 4, 6000 if q else 1000)
     for i in bad_spec:
         c = refs[i]
         if c["kind"] == "lit":
